@@ -3,6 +3,7 @@ import PonyVerif.Model.Serial
 import PonyVerif.Model.BagWalk
 import PonyVerif.Model.AttrSel
 import PonyVerif.Model.Pickle
+import PonyVerif.Model.Report
 namespace PonyVerif.Drive.C31
 open Lean PonyVerif.Drive PonyVerif.Model.Serial
 
@@ -39,6 +40,34 @@ def parseObj (j : Json) : Except String Obj := do
 def jVals (l : List (String × Nat)) : Json := .arr (l.map (fun e => Json.arr #[.str e.1, .num (JsonNumber.fromNat e.2)])).toArray
 end Pk
 
+namespace Rp
+open PonyVerif.Model.Report PonyVerif.Model.Serial
+def strs (j : Json) : Except String (List String) :=
+  match j with
+  | .arr a => a.toList.mapM (fun x => match x with | .str s => pure s | _ => throw "strings expected")
+  | _ => throw "list of strings expected"
+def parseVal (j : Json) : Except String Val := do
+  if let .ok v := j.getObjVal? "scalar" then return .scalar (← fromJson? v)
+  if let .ok v := j.getObjVal? "one" then
+    match v with
+    | .null => return .one none
+    | _ => return .one (some (← strs v))
+  if let .ok (.arr a) := j.getObjVal? "many" then return .many (← a.toList.mapM strs)
+  throw "val: {scalar|one|many}"
+def jKey' : Key → Json
+  | .text s => Json.mkObj [("text", .str s)]
+  | .single s => Json.mkObj [("single", .str s)]
+def jRep : Rep → Json
+  | .scalar v => Json.mkObj [("scalar", .num (JsonNumber.fromNat v))]
+  | .null => Json.mkObj [("null", .bool true)]
+  | .key k => jKey' k
+  | .tuple raw => Json.mkObj [("tuple", .arr (raw.map Json.str).toArray)]
+  | .keys l => Json.mkObj [("keys", .arr (l.map jKey').toArray)]
+  | .tuples l => Json.mkObj [("tuples", .arr (l.map (fun r => Json.arr (r.map Json.str).toArray)).toArray)]
+def leKey (a b : Key) : Bool := decide (keyText a ≤ keyText b)
+def leTup (a b : List String) : Bool := decide (a ≤ b)
+end Rp
+
 def handle (j : Json) : Except String Json := do
   let op ← argStr j "op"
   match op with
@@ -56,6 +85,16 @@ def handle (j : Json) : Except String Json := do
   | "dictkey" =>
       let parts ← strList j "raw"
       pure (Json.mkObj [("ok", jKey (bagDictKey parts))])
+  | "cell" =>
+      let v ← Rp.parseVal (← j.getObjVal? "val")
+      let which ← argStr j "which"
+      let cols ← argNat j "cols"
+      let r := if which == "bag" then PonyVerif.Model.Report.bagCell (PonyVerif.Model.Report.sortBy Rp.leKey) v
+               else PonyVerif.Model.Report.entityCell (PonyVerif.Model.Report.sortBy Rp.leKey) (PonyVerif.Model.Report.sortBy Rp.leTup) cols v
+      pure (Json.mkObj [("ok", Rp.jRep r), ("back", match PonyVerif.Model.Report.unRep r with
+        | some (.many ks) => .arr (ks.map (fun k => Json.arr (k.map Json.str).toArray)).toArray
+        | some (.one (some k)) => .arr (k.map Json.str).toArray
+        | _ => .null)])
   | "reduce_entity" =>
       let o ← Pk.parseObj (← j.getObjVal? "obj")
       match PonyVerif.Model.Pickle.reduce o with
